@@ -579,6 +579,15 @@ class Body:
                 out |= self.roots(o, _seen, _depth + 1)
         return out
 
+    def deps(self, org):
+        """every origin the value depends on (transitive; includes intermediate call results with their projections)"""
+        seen = set()
+        self.roots(org, seen)
+        return seen
+
+    def depends_on_call(self, org, bb, proj_prefix=()):
+        return any(d[0] == "call" and d[1] == bb and d[2][:len(proj_prefix)] == tuple(proj_prefix) for d in self.deps(org))
+
     # ------------------------------------------------------------- helpers
     def arg_origin(self, bb, i):
         t = self.term(bb)
@@ -640,6 +649,9 @@ class Body:
             edges = {}
             for v, b in tv.items():
                 edges[names.get(v, str(v))] = (bid, b)
+            for v, nm in names.items():
+                if nm not in edges:
+                    edges[nm] = (bid, other)   # variants not listed take the otherwise edge
             edges["_otherwise"] = (bid, other)
             out.append({"switch": bid, "org": so, "edges": edges})
         return out
